@@ -18,10 +18,16 @@ RULE = ("graphs N<=3 with <=2 properties per element kind (all property kinds) x
         "then once for EVERY store mutation k (set / set_if_not_exists / delete / delete_dir in program order) with an OSError injected at k; "
         "the surviving store is dumped and judged by validate_structure + read_to_memory; plus structurally invalid inputs (wrong lengths, "
         "stale metadata, mixed var-length) without faults; entry points write_arrays (tied to the Coq model), write_dicts and geff.write "
-        "for networkx (oracle only); non-trivial = trace of >= 10 mutations; distinct by structural input")
+        "for networkx (oracle only); non-trivial = trace of >= 10 mutations; distinct by structural input; "
+        "entry points on a directory target (harness/c05_entries.py, tied to Entry.v): from_ctc_to_geff (label volume none / inside), "
+        "from_trackmate_xml_to_geff, write_dicts, Nx/Rx/Sg backend writers called directly, the spatial-graph writer through geff.write, on "
+        "fresh / foreign / geff / geff-beside-foreign directories: failures injected below the path (every mutation of a LocalStore rooted in "
+        "the target incl. directory creation, and delete_geff's rmtree)")
 EXHAUSTIVE_BLOCKS = ["per case: every mutation index of the write (fault_enumeration is exhaustive for the case)"]
 ASSUMPTIONS = ["granularity = zarr Store API calls (set, set_if_not_exists, delete, delete_dir as one call) on a MemoryStore; torn single-key writes, "
                "the per-file order inside delete_dir / shutil.rmtree and multi-chunk arrays are below the model",
+               "directory targets: mutations are serialised and storage stays broken from mutation k on (zarr issues some writes concurrently); "
+               "TrackMate writes its property columns in Python-set order: its trace obligation is checked on the arrays in the order handed over",
                "the Coq model's states are tree-level (one per zarr operation geff issues); every model state must occur among the real crash "
                "states, and every real crash state that the library recognises must be the new or the previous graph"]
 
@@ -55,6 +61,12 @@ def generate(rng: random.Random, tier: str):
         g = gg.rand_graph(rng, max_n=3, max_e=2, max_props=2)
         yield {"kind": "invalid", "entry": "write_arrays", "fmt": rng.choice([2, 3]), "pre": rng.choice(["fresh", "foreign"]), "overwrite": False,
                "validate": True, "old": None, "expand": rng.choice(["listing", "reversed", "chunks-first", "meta-first"]), **malform(rng, g)}
+
+    # every other writing entry point on a directory target (converters, write_dicts / backend writers called directly, the
+    # spatial-graph writer): harness/c05_entries.py, tied to Entry.v
+    from harness import c05_entries
+
+    yield from c05_entries.generate(rng, tier)
 
 
 def rich_old(rng):
@@ -165,6 +177,10 @@ def same_mem(a, b):
 def run_impl(c):
     from geff.core_io import read_to_memory
 
+    if c["kind"] == "ecrash":
+        from harness import c05_entries
+
+        return c05_entries.run_impl(c)
     it = Interner()
     obs = {}
     new, old = expected_graphs(c)
@@ -259,6 +275,10 @@ def coq_case(c, o):
 
 
 def oracle(c, o):
+    if c["kind"] == "ecrash":
+        from harness import c05_entries
+
+        return c05_entries.oracle(c, o)
     bad = [i for i, v in enumerate(o["verdicts"]) if v == "WRONG"]
     if bad:
         return Failure(c, slim(o), f"storage failure at mutation {bad[0]} of {o['mutations']} leaves a store that validates and reads as a graph "
@@ -289,6 +309,10 @@ def nontrivial(c, o):
 
 def describe(c, o):
     from collections import Counter
+    if c["kind"] == "ecrash":
+        from harness import c05_entries
+
+        return c05_entries.describe(c, o)
     cnt = Counter(o["verdicts"])
     return f"{c['entry']}:{c['kind']}{':keys=' + c['expand'] if c.get('expand') else ''}:v{c['fmt']}:{c['pre']}:ov={int(c['overwrite'])}:{o['res'][0] if o['res'][0]=='ok' else o['res'][1]}:muts~{o['mutations']//10*10}:{'+'.join(sorted(cnt))}"
 
